@@ -123,6 +123,10 @@ pub struct Prog {
     /// keep an observer on m / on the regular bind for the whole history
     pub pin_m: bool,
     pub pin_bnd: bool,
+    /// keep an observer on the *driver* (the selector map / lhs-change map whose function adds and removes the
+    /// dependencies) for the whole history: it keeps running, and mutating the expert node, while the expert node
+    /// itself is unobserved (added after seed C14-c; only used without Inner candidates / make_stale / invalidate)
+    pub pin_driver: bool,
     /// which of the vars a, b, k the history may toggle
     pub toggles: Vec<u8>,
     /// Sum: actions make_stale / invalidate
@@ -147,6 +151,7 @@ impl Prog {
             "init": self.init,
             "pin_m": self.pin_m,
             "pin_bnd": self.pin_bnd,
+            "pin_driver": self.pin_driver,
             "toggles": self.toggles,
             "stale": self.stale,
             "inval": self.inval,
@@ -174,6 +179,7 @@ impl Prog {
             init: j["init"].as_array()?.iter().map(|x| x.as_u64().map(|x| x as u8)).collect::<Option<Vec<_>>>()?,
             pin_m: j["pin_m"].as_bool()?,
             pin_bnd: j["pin_bnd"].as_bool()?,
+            pin_driver: j["pin_driver"].as_bool().unwrap_or(false),
             toggles: j["toggles"].as_array()?.iter().map(|x| x.as_u64().map(|x| x as u8)).collect::<Option<Vec<_>>>()?,
             stale: j["stale"].as_bool()?,
             inval: j["inval"].as_bool()?,
@@ -500,6 +506,8 @@ struct Real {
     /// held only to keep m / the regular bind necessary
     #[allow(dead_code)]
     pins: Vec<Observer<i32>>,
+    #[allow(dead_code)]
+    pin_driver: Option<Observer<()>>,
     a: Var<i32>,
     b: Var<i32>,
     k: Var<i32>,
@@ -540,6 +548,7 @@ fn build(prog: &Prog, h: &H) -> Real {
     let mut sel_var = None;
     let mut outer_var = None;
     let mut sw_var = None;
+    let mut driver: Option<Incr<()>> = None;
     let x: Incr<i32> = match prog.cons {
         Cons::Sum => {
             let sel = state.var(Sel { mult: prog.init.clone(), tok: 0, inval: false });
@@ -569,6 +578,7 @@ fn build(prog: &Prog, h: &H) -> Real {
             };
             // static dependency, child index 0, created before every dynamic dependency
             s.add_dependency(&selmap);
+            driver = Some(selmap.clone());
             sel_var = Some(sel);
             s.watch()
         }
@@ -602,6 +612,7 @@ fn build(prog: &Prog, h: &H) -> Real {
                 hb.log.push(Ev::LhsRun { same: false, removed_stale_gen: stale_gen });
             });
             join.add_dependency(&lhs_change);
+            driver = Some(lhs_change.clone());
             outer_var = Some(outer);
             join.watch()
         }
@@ -653,6 +664,7 @@ fn build(prog: &Prog, h: &H) -> Real {
                 hb.log.push(Ev::LhsRun { same: false, removed_stale_gen: stale_gen });
             });
             join.add_dependency(&lhs_change);
+            driver = Some(lhs_change.clone());
             sw_var = Some(sw);
             join.watch()
         }
@@ -671,7 +683,8 @@ fn build(prog: &Prog, h: &H) -> Real {
             pins.push(bnd.observe());
         }
     }
-    Real { obs_x: None, obs_d: None, pins, cand_a: a.watch(), cand_b: b.watch(), a, b, k, sel: sel_var, outer: outer_var, sw: sw_var, m, x, d, state }
+    let pin_driver = if prog.pin_driver { driver.as_ref().map(|d| d.observe()) } else { None };
+    Real { obs_x: None, obs_d: None, pins, pin_driver, cand_a: a.watch(), cand_b: b.watch(), a, b, k, sel: sel_var, outer: outer_var, sw: sw_var, m, x, d, state }
 }
 
 // ---------------------------------------------------------------------------------------
